@@ -187,7 +187,15 @@ func checkMain(args []string) int {
 	}
 	run := &Run{Prop: prop, Tier: tier, Eng: eng, Assume: map[string]bool{}, SmtDir: filepath.Join(os.TempDir(), "govc_smt_"+prop),
 		OutDir: root, Root: in, Workers: 16, results: map[string]*FuncResult{}}
-	os.RemoveAll(run.SmtDir)
+	if os.Getenv("GOVC_KEEP") == "" {
+		// a directory of its own: two checks of the same property may run at the same time (sweeps)
+		if d, err := os.MkdirTemp("", "govc_smt_"+prop+"_"); err == nil {
+			run.SmtDir = d
+			defer os.RemoveAll(d)
+		}
+	} else {
+		os.RemoveAll(run.SmtDir)
+	}
 	for _, it := range plan.Items {
 		if it.Plugin != "" {
 			plugins[it.Plugin](run, it)
